@@ -134,6 +134,14 @@ class BatchProcessor:
         # Remove padding if needed
         if self.n_pad > 0:
             return results[: -self.n_pad]
+        # Without padding nothing is sliced off, so a pmap output is still
+        # sharded across devices; gather it onto one device so that it can be
+        # passed back into pmap as a broadcast argument
+        sharding = getattr(results, "sharding", None)
+        if sharding is not None and len(sharding.device_set) > 1:
+            results = jax.device_put(
+                results, min(sharding.device_set, key=lambda d: d.id)
+            )
         return results
 
     @property
